@@ -255,7 +255,20 @@ func TestC05Grid(t *testing.T) {
 func respell(t *rapid.T, d decOperand) (string, *big.Rat) {
 	exact := d.rat()
 	var s string
-	switch rapid.IntRange(0, 6).Draw(t, "spell") {
+	switch rapid.IntRange(0, 8).Draw(t, "spell") {
+	case 7: // a sign in front of the number written as text: `+'42'` is the number 42, `-'42'` is -42
+		if d.Exp < 0 || len(d.Coef)+d.Exp > 15 {
+			s = d.lit(1)
+			break
+		}
+		s = "'" + d.Coef + strings.Repeat("0", d.Exp) + "'"
+		if d.Neg {
+			s = "(-" + s + ")"
+		} else {
+			s = "(+" + s + ")"
+		}
+	case 8: // the number a builtin makes of its text
+		s = "toFloat('" + strings.Trim(d.lit(0), "()") + "')"
 	case 5, 6: // an integer written out in full with 1-3 leading zeros (no point, no exponent)
 		if d.Exp < 0 || d.Exp > 12 {
 			s = d.lit(0)
